@@ -4,20 +4,35 @@ import json
 import os
 
 BASE = "/verif/seeded"
-print("| seeded change | written for | caught by (quick tier, final checks) | target check when the change was delivered |")
-print("|---|---|---|---|")
+print("| seeded change | written for | target check, final pass (quick tier) | other checks that caught it (intake / earlier pass) | "
+      "target check when the change was delivered |")
+print("|---|---|---|---|---|")
+n = ok = 0
 for d in sorted(os.listdir(BASE)):
     p = os.path.join(BASE, d, "meta.json")
     if not os.path.exists(p):
         continue
     m = json.load(open(p))
+    if m.get("retired"):
+        print("| %s | %s | retired: %s | - | caught |" % (d, m.get("breaks"), m["retired"][:160] + " ..."))
+        continue
+    tgt = m.get("breaks", "?")
+    ft = m.get("final_target_check")
     final = m.get("final_check", {})
-    caught = final.get("caught_by", m.get("caught_by", []))
+    if ft is not None:
+        t_ok = tgt in ft.get("caught_by", [])
+    else:
+        t_ok = tgt in final.get("caught_by", m.get("caught_by", []))
+    others = sorted(set(final.get("caught_by", []) + m.get("caught_by", [])) - {tgt})
     fv = m.get("first_version_of_target_check")
     if d.startswith("revert-"):
-        note = "defect of the pinned tree: found by this check (see section 17)"
+        note = "defect of the pinned tree, found by this check (section 17)"
     elif fv is None:
         note = "?"
     else:
         note = "caught" if fv.get("caught") else "MISSED -> strengthened (see above)"
-    print("| %s | %s | %s | %s |" % (d, m.get("breaks", "?"), ", ".join(caught) or "-", note))
+    n += 1
+    ok += 1 if t_ok else 0
+    print("| %s | %s | %s | %s | %s |" % (d, tgt, "caught" if t_ok else "MISSED", ", ".join(others) or "-", note))
+print()
+print("%d seeded changes, %d caught by the check they were written for in the final pass." % (n, ok))
